@@ -172,6 +172,15 @@ add('C14', 'exploration',
     'Reference lexer; block order and loader text not fixed.',
     'DESIGN.md 5/C14')
 
+add('C11', 'fault_enumeration',
+    'fault-point enumeration on the real write paths: clean run counts the steps of every failure source (Lua writer chunks, '
+    'section encoder lines, PNG encoder, encoder-stream writes, unparsable transformed code), then one injected run per '
+    '(source, k) for all k, per configuration (entry x format x destination state x Lua writer)',
+    'Every fault position of every source in 9 (thorough 23) configurations: the call fails, destination bytes/absence and the '
+    'directory listing are unchanged.',
+    'Faults injected by wrapping picotool classes from the harness; the final staging->destination copy is not faulted.',
+    'DESIGN.md 5/C11')
+
 PENDING = {
 }
 
